@@ -354,6 +354,63 @@ fn builds(ctx: &Ctx, base: u64, u: usize, max_len: usize) {
             }
         }
     }
+    // the constructors that make the regions themselves: anonymous ranges, and ranges backed by
+    // one shared file whose windows are disjoint, identical (one page mirrored at several guest
+    // addresses) or overlapping - what backs a region has no say in whether the guest ranges
+    // form a valid map
+    #[cfg(not(feature = "xen"))]
+    {
+        use vm_memory::FileOffset;
+        let file = Arc::new(crate::layouts::tempfile().unwrap());
+        file.set_len(1 << 16).unwrap();
+        for list in lists.iter().filter(|l| l.len() <= 2 || l.len() == 3 && l[0].0 < l[1].0 && l[1].0 < l[2].0) {
+            let unsorted = (0..list.len()).any(|i| (i + 1..list.len()).any(|j| list[i].0 > list[j].0));
+            let overlap = (0..list.len()).any(|i| (i + 1..list.len()).any(|j| intersects(list[i], list[j])));
+            for backing in 0..4usize {
+                t += 1;
+                let res = if backing == 0 {
+                    GuestMemoryMmap::<()>::from_ranges(&list.iter().map(|iv| (GuestAddress(iv.0), iv.1 as usize)).collect::<Vec<_>>())
+                } else {
+                    let ranges: Vec<(GuestAddress, usize, Option<FileOffset>)> = list
+                        .iter()
+                        .enumerate()
+                        .map(|(i, iv)| {
+                            let off = match backing {
+                                1 => i as u64 * 4096,            // disjoint windows
+                                2 => 0,                          // the same window every time
+                                _ => (i as u64 % 2) * 4096,      // first and third window identical
+                            };
+                            (GuestAddress(iv.0), iv.1 as usize, Some(FileOffset::from_arc(file.clone(), off)))
+                        })
+                        .collect();
+                    GuestMemoryMmap::<()>::from_ranges_with_files(&ranges)
+                };
+                let api = if backing == 0 { "from_ranges" } else { "from_ranges_with_files" };
+                let rp = || json!({"list": list, "constructor": api, "file_windows": (["none", "disjoint", "identical", "first and third identical"][backing])});
+                match res {
+                    Ok(m) => {
+                        let got: Vec<(u64, u64)> = describe_map(&m).iter().map(|r| (r.0, r.1)).collect();
+                        if list.is_empty() || unsorted || overlap {
+                            ctx.fail(&format!("C10/{}/invalid-list-accepted", api), &format!("{:?} accepted", list), rp());
+                        } else if got != list.iter().map(|iv| (iv.0, iv.1)).collect::<Vec<_>>() {
+                            ctx.fail(&format!("C10/{}/wrong-map", api), &format!("{:?} -> {:?}", list, got), rp());
+                        }
+                    }
+                    Err(e) => {
+                        let ok = match e {
+                            MmapError::NoMemoryRegion => list.is_empty(),
+                            MmapError::UnsortedMemoryRegions => unsorted,
+                            MmapError::MemoryRegionOverlap => overlap,
+                            _ => false,
+                        };
+                        if !ok {
+                            ctx.fail(&format!("C10/{}/wrong-error", api), &format!("{:?}: {} (unsorted={}, overlap={})", list, err_name(&e), unsorted, overlap), rp());
+                        }
+                    }
+                }
+            }
+        }
+    }
     // lists that name the same region handle more than once (a region overlaps itself)
     let pool: Vec<Arc<GuestRegionMmap<()>>> = ivs.iter().map(|iv| new_region(*iv, &mut serial)).collect();
     let np = pool.len();
@@ -508,7 +565,7 @@ fn top_of_address_space(ctx: &Ctx) {
 
 pub fn run(tier: Tier, replay: Option<String>) -> i32 {
     let ctx = crate::new_ctx("C10", tier, "model_checking", &replay);
-    ctx.set_rule("E1 to an empty frontier: state = sorted list of (start, length) of a GuestMemoryMmap over U one-byte cells; from every reachable map: insert_region for every interval of the universe (valid, adjacent, overlapping by one byte, duplicate start), remove_region for every (base, size) incl. wrong size and non-start address, clone, and insert_region of every region handle that already exists in the map or in any of its ancestors (held by the map: refused; removed earlier or added on another branch: decided by the ranges alone); from_regions / from_arc_regions for every ordered list of up to 3 intervals (unsorted, overlapping, empty) and for every list of 2..3 handles in which one handle is repeated. Regions are real mmaps filled with a unique tag; the frontier keeps every map together with all its ancestors alive, and after every transition the whole lineage is re-read (same regions, same host pointers, same tags). GuestRegionMmap::new over raw regions with base+size within +-3 of 2^64; for mappable sizes GuestRegionMmap::new, from_range and GuestMemoryMmap::from_ranges must agree on acceptance.");
+    ctx.set_rule("E1 to an empty frontier: state = sorted list of (start, length) of a GuestMemoryMmap over U one-byte cells; from every reachable map: insert_region for every interval of the universe (valid, adjacent, overlapping by one byte, duplicate start), remove_region for every (base, size) incl. wrong size and non-start address, clone, and insert_region of every region handle that already exists in the map or in any of its ancestors (held by the map: refused; removed earlier or added on another branch: decided by the ranges alone); from_regions / from_arc_regions for every ordered list of up to 3 intervals (unsorted, overlapping, empty) and for every list of 2..3 handles in which one handle is repeated; from_ranges and from_ranges_with_files (one shared file with disjoint, identical and overlapping windows) for the same lists: what backs a region has no say in the answer. Regions are real mmaps filled with a unique tag; the frontier keeps every map together with all its ancestors alive, and after every transition the whole lineage is re-read (same regions, same host pointers, same tags). GuestRegionMmap::new over raw regions with base+size within +-3 of 2^64; for mappable sizes GuestRegionMmap::new, from_range and GuestMemoryMmap::from_ranges must agree on acceptance.");
     ctx.assume("whether base + size == 2^64 'exceeds the address space' is not judged, only that all constructors agree; where a list is both unsorted and overlapping either documented error is accepted");
     if ctx.replay_of.is_some() {
         println!("replay: deterministic search; re-running it");
